@@ -78,6 +78,20 @@ def _stores(stmts):
     return s
 
 
+def _runs_at_least_once(it):
+    """range(c) / range(a, b) with integer constants and a non-empty span, or a non-empty list / tuple literal."""
+    if isinstance(it, (ast.List, ast.Tuple)):
+        return len(it.elts) > 0
+    if isinstance(it, ast.Call) and isinstance(it.func, ast.Name) and it.func.id == 'range' and not it.keywords:
+        a = it.args
+        if all(isinstance(x, ast.Constant) and isinstance(x.value, int) for x in a):
+            if len(a) == 1:
+                return a[0].value > 0
+            if len(a) == 2:
+                return a[1].value > a[0].value
+    return False
+
+
 class _Flow:
     """Definite assignment through one iteration of the loop body."""
 
@@ -135,13 +149,17 @@ class _Flow:
         if isinstance(st, (ast.For, ast.AsyncFor)):
             self.reads(st.iter, da, st)
             inner = da | _targets(st.target)
-            self.block(st.body, inner)
+            after, _ = self.block(st.body, inner)
             self.block(st.orelse, da)
+            if _runs_at_least_once(st.iter):
+                return after, True          # a literal non-empty iterable: the stores of the first pass are definite
             return da, True
         if isinstance(st, ast.While):
             self.reads(st.test, da, st)
-            self.block(st.body, da)
+            after, _ = self.block(st.body, da)
             self.block(st.orelse, da)
+            if isinstance(st.test, ast.Constant) and st.test.value is True:
+                return after, True          # `while True:` enters its body
             return da, True
         if isinstance(st, (ast.With, ast.AsyncWith)):
             for it in st.items:
